@@ -240,6 +240,18 @@ impl<'a> Cx<'a> {
     }
 }
 
+/// Run an oracle outside a `Session` (libFuzzer targets, child processes): a `Cx` that knows the
+/// listed known findings of `property` (so a campaign does not rediscover one finding forever).
+pub fn with_cx<R>(property: &'static str, f: impl FnOnce(&mut Cx) -> R) -> R {
+    static KNOWN: std::sync::OnceLock<Known> = std::sync::OnceLock::new();
+    let known = KNOWN.get_or_init(|| {
+        let dir = PathBuf::from(std::env::var("VERIF_DIR").unwrap_or_else(|_| "/verif".into()));
+        Known::load(&dir.join("known-findings.txt"))
+    });
+    let mut cx = Cx::new(property, known, Tier::Quick);
+    f(&mut cx)
+}
+
 // ---------------------------------------------------------------------------------------------
 // Aggregation
 
